@@ -25,7 +25,7 @@ ANCHORS = [
     ("pycomm3/packets/ethernetip.py", "SendUnitDataRequestPacket._setup_message"), ("pycomm3/packets/logix.py", "ReadTagFragmentedRequestPacket.from_request"),
     ("pycomm3/packets/logix.py", "WriteTagFragmentedRequestPacket.from_request"),
 ]
-KINDS = ["generic", "read1", "readN", "frag2", "frag3", "wfrag", "bits", "write1", "upload", "mixed"]
+KINDS = ["generic", "read1", "readN", "frag2", "frag3", "wfrag", "bits", "write1", "upload", "fragempty", "mixed"]
 
 
 def project(rng):
@@ -56,6 +56,21 @@ def issue(sc, kind, rng):
         st, out = b.call("read", d.read, f"arr{{{n}}}")
         if st == "ok" and out:
             st, out = b.call("read", d.read, "d1")
+    elif kind == "fragempty":
+        # an unusual but legal target: one fragment is answered "partial transfer" (0x06) with the type code and NO value bytes;
+        # the client asks again for the same offset - in a new message, with a new sequence count
+        seen = {"n": 0}
+
+        def empty_fragment(rq, seen=seen):
+            if rq.service != 0x52 or rq.embedded:
+                return None
+            seen["n"] += 1
+            return (6, (), b"\xc4\x00") if seen["n"] == 2 else None
+        sc.dev.force_status = empty_fragment
+        b.call("read", d.read, "arr{2600}")
+        sc.dev.force_status = None
+        sc.dev.finish_transfers()
+        st, out = b.call("read", d.read, "d1")
     elif kind == "wfrag":
         st, out = b.call("write", d.write, "arr{1500}", list(range(1500)))
         if st == "ok" and out:
@@ -81,12 +96,27 @@ def drain(res, b, what):
     b.log.violations.clear()
 
 
+def died(res, sc, what):
+    """A scenario that died (a public call overran its step budget) still hands over what the sequence monitor saw before:
+    a client that keeps re-sending one frame is exactly how a repeated count looks."""
+    res.count("scenarios-died")
+    if sc is not None:
+        try:
+            drain(res, sc.b, what + ":died")
+        finally:
+            try:
+                sc.b.close()
+            except Exception:  # noqa
+                pass
+
+
 def run(ctx):
     res = common.Result("C17")
     rng = ctx.rng()
     quick = ctx.quick
     # ---- (a) one real wrap per shard -------------------------------------------------------------------------------------------
     kind = KINDS[ctx.shard % len(KINDS)]
+    sc = None
     try:
         sc = LogixScenario(rng, config=("fw32", 32, False, True), project=project(rng))
         sc.dev.read_frag = "full"
@@ -109,7 +139,7 @@ def run(ctx):
             res.violation("open-failed", f"open -> {sc.opened!r:.200}", None)
         sc.close()
     except ScenarioDead:
-        pass
+        died(res, sc, f"long-history:{kind}")
     # ---- (b) every kind x phase offset around the wrap ------------------------------------------------------------------------------
     phases = list(range(-12, 3)) if quick else list(range(-40, 6))
     idx = 0
@@ -118,6 +148,7 @@ def run(ctx):
             idx += 1
             if not ctx.mine(idx):
                 continue
+            sc = None
             try:
                 sc = LogixScenario(rng, config=("fw32", 32, False, True), project=project(rng))
                 if not sc.ok():
@@ -149,6 +180,7 @@ def run(ctx):
                 drain(res, sc.b, f"phase:{kind}:{ph:+d}")
                 sc.close()
             except ScenarioDead:
+                died(res, sc, f"phase:{kind}:{ph:+d}")
                 continue
     # ---- (d) bulk calls: many requests in one call draw many counts between two frames (several multi-service packets back to back) --------
     bulk = [2, 3, 15, 16, 17, 127, 128, 129, 215, 216, 217, 254, 255, 256, 257, 430, 511, 512, 513, 1023, 1024, 1025, 2047, 2048, 2049,
@@ -158,6 +190,7 @@ def run(ctx):
     for bi, n in enumerate(bulk):
         if not ctx.mine(bi):
             continue
+        sc = None
         try:
             sc = LogixScenario(rng, config=("fw32", 32, False, True) if bi % 3 else ("fw20-500", 20, False, False), project=project(rng))
             if not sc.ok():
@@ -181,6 +214,7 @@ def run(ctx):
             drain(res, sc.b, f"bulk:{n}")
             sc.close()
         except ScenarioDead:
+            died(res, sc, f"bulk:{n}")
             continue
     # ---- (c) lost replies / resets: a retransmitted frame would repeat its count ----------------------------------------------------------
     prng = common.rng_for("C17", ctx.seed, 0, "plan")
